@@ -154,7 +154,7 @@ func TestBoundedC15(t *testing.T) {
 	}
 	alphabet := []byte{'a', ' ', '\t', '\r', '\n', '(', ')'}
 	idem := &boundedReport{ID: "C15.description-idempotent", Prop: "C15", Exhaustive: true,
-		Rule: fmt.Sprintf("every text over {a, space, tab, CR, LF, (, )} up to length %d accepted by description(): description(description(t)) == description(t); non-trivial = text containing a line end or a parenthesis", n)}
+		Rule: fmt.Sprintf("every text over {a, space, tab, CR, LF, (, )} up to length %d accepted by description(): description(description(t)) == description(t), and description leaves its argument's bytes unchanged (the body aliases the file content); non-trivial = text containing a line end or a parenthesis", n)}
 	shape := &boundedReport{ID: "C15.description-shape", Prop: "C15", Exhaustive: true,
 		Rule: fmt.Sprintf("same texts: the result has no CR, no leading line end, no trailing blank, and its lines share no common leading whitespace (unless a line is all-blank or the first line ends with blanks only)", n)}
 	paren := &boundedReport{ID: "C15.description-parentheses", Prop: "C15", Exhaustive: true,
@@ -163,7 +163,14 @@ func TestBoundedC15(t *testing.T) {
 		idem.Evals++
 		shape.Evals++
 		nontrivial := strings.ContainsAny(s, "\r\n()")
-		d1, err := description([]byte(s))
+		in := []byte(s)
+		d1, err := description(in)
+		// frame: the normaliser must not write into its argument (the body bytes alias the source file's content, which is
+		// read again for every PASTE of the same directive)
+		if string(in) != s {
+			idem.bad(fmt.Sprintf("description(%q) modified its argument: now %q", s, string(in)))
+			return
+		}
 		if err == nil {
 			if nontrivial {
 				idem.Distinct++
